@@ -14,8 +14,8 @@ from smt import R
 from checks.c04 import nonvanishing
 
 
-def load(run, args):
-    sb = fw.run_driver(fw.SYM_BIN, ["kzg"] + [str(a) for a in args], run.seed)
+def load(run, args, extra_env=None):
+    sb = fw.run_driver(fw.SYM_BIN, ["kzg"] + [str(a) for a in args], run.seed, extra_env=extra_env)
     ctx = smt.Ctx()
     nodes = ctx.from_nodes(sb["nodes"])
     return sb, ctx, nodes
@@ -92,37 +92,67 @@ def run(run):
     # ---- openings: honest aggregate witness passes, and the acceptance polynomial is the textbook one
     shapes = [(2, 1, 2), (2, 2, 3), (4, 3, 3)] if quick else [(2, 1, 2), (2, 2, 3), (4, 3, 3), (4, 3, 5), (8, 3, 6)]
     for deg, npol, ln in shapes:
-        sb, ctx, nodes = load(run, ["open", deg, npol, ln])
-        p = sb["outputs"]["open"]["paths"][0]
-        tag = f"open/deg{deg}/polys{npol}/len{ln}"
-        if p["panic"] is not None:
-            run.inconclusive.append(f"{tag}: panic {p['panic']}")
-            continue
-        res = p["result"]
+        # flips are limited to the leading-coefficient tests of the input polynomials (the first
+        # npol*ln symbolic comparisons): every pattern of zero / shorter polynomials is explored
+        sb, ctx, nodes = load(run, ["open", deg, npol, ln], extra_env={"VERIF_FLIP_DEPTH": str(npol * ln), "VERIF_MAX_PATHS": "1100"})
+        P_open = sb["outputs"]["open"]
+        if not P_open.get("complete", True):
+            run.inconclusive.append(f"open/deg{deg}/polys{npol}/len{ln}: path budget exceeded")
         x, gs = ctx.var("rng0"), ctx.var("rng1")
         z, v = ctx.var("z"), ctx.var("v")
         polys = [[ctx.var(f"p{j}_{i}") for i in range(ln)] for j in range(npol)]
-        # witness polynomial: W(X)*(X - z) == sum_j v^j (p_j(X) - p_j(z))   (coefficient-wise)
-        W = [nodes[i] for i in res["witness_coeffs"]]
-        agg = [sum(((v ** j) * polys[j][k] for j in range(npol)), ctx.const(0)) for k in range(ln)]
-        aggz = sum((agg[k] * (z ** k) for k in range(ln)), ctx.const(0))
-        for k in range(ln):
-            lhs = (W[k - 1] if 0 <= k - 1 < len(W) else ctx.const(0)) - z * (W[k] if k < len(W) else ctx.const(0))
-            rhs = agg[k] - (aggz if k == 0 else ctx.const(0))
-            run.identity(f"{tag}/witness-relation/coeff{k}", lhs, rhs)
-        for j in range(npol):
-            run.identity(f"{tag}/eval{j}", nodes[res["evals"][j]],
-                         sum((polys[j][k] * (z ** k) for k in range(ln)), ctx.const(0)))
-        run.identity(f"{tag}/flat-eval", nodes[res["flat_eval"]],
-                     sum(((v ** j) * nodes[res["evals"][j]] for j in range(npol)), ctx.const(0)))
-        run.identity(f"{tag}/flat-comm", nodes[res["flat_comm"]],
-                     sum(((v ** j) * nodes[res["comms"][j]] for j in range(npol)), ctx.const(0)))
-        # the honest opening is accepted: the pairing comparison was decided `equal` by identity
-        if res["check"] != "Ok(())":
-            run.violations.append((f"{tag}/honest-accepted", _w(run, tag, f"honest opening: {res['check']}")))
-        forced = [c for c in p["path"] if c["forced"]]
-        for k_, c in enumerate(forced):
-            run.identity(f"{tag}/honest-accepted/identity{k_}", nodes[c["a"]], nodes[c["b"]])
+        zero = ctx.const(0)
+        run.extra["open_paths"] = run.extra.get("open_paths", 0) + len(P_open["paths"])
+        for k_, p in enumerate(P_open["paths"]):
+            tag = f"open/deg{deg}/polys{npol}/len{ln}/p{k_}"
+            # paths: which (leading) coefficients were decided zero (a zero polynomial included)
+            sub = {}
+            other = False
+            for cnd in p["path"]:
+                a_, b_ = nodes[cnd["a"]], nodes[cnd["b"]]
+                if cnd["forced"]:
+                    continue
+                if cnd["eq"]:
+                    if a_.op == "v" and b_.op == "c" and b_.args[0] == 0:
+                        sub[a_.args[0]] = b_
+                    else:
+                        other = True
+            if other:
+                continue   # a non-coefficient coincidence (e.g. v == 0): not part of this family
+            if p["panic"] is not None:
+                q = xe.Query()
+                for cnd in p["path"]:
+                    f = q.zero(nodes[cnd["a"]] - nodes[cnd["b"]])
+                    q.add(f if cnd["eq"] else f"(not {f})")
+                run.query(f"{tag}/panic-infeasible", q, "unsat", "path-feasibility", get_model=False,
+                          meta={"panic": p["panic"]})
+                continue
+            res = p["result"]
+            S = lambda e: xe.subst(ctx, [e], sub)[0]
+            W = [S(nodes[i]) for i in res["witness_coeffs"]]
+            agg = [S(sum(((v ** j) * polys[j][k] for j in range(npol)), zero)) for k in range(ln)]
+            aggz = sum((agg[k] * (z ** k) for k in range(ln)), zero)
+            for k in range(ln):
+                lhs = (W[k - 1] if 0 <= k - 1 < len(W) else zero) - z * (W[k] if k < len(W) else zero)
+                rhs = agg[k] - (aggz if k == 0 else zero)
+                run.identity(f"{tag}/witness-relation/coeff{k}", lhs, rhs)
+            for k in range(ln, len(W) + 1):
+                lhs = (W[k - 1] if 0 <= k - 1 < len(W) else zero) - z * (W[k] if k < len(W) else zero)
+                run.identity(f"{tag}/witness-relation/coeff{k}", lhs, zero)
+            for j in range(npol):
+                run.identity(f"{tag}/eval{j}", S(nodes[res["evals"][j]]),
+                             S(sum((polys[j][k] * (z ** k) for k in range(ln)), zero)))
+            run.identity(f"{tag}/flat-eval", S(nodes[res["flat_eval"]]),
+                         S(sum(((v ** j) * nodes[res["evals"][j]] for j in range(npol)), zero)))
+            run.identity(f"{tag}/flat-comm", S(nodes[res["flat_comm"]]),
+                         S(sum(((v ** j) * nodes[res["comms"][j]] for j in range(npol)), zero)))
+            # the honest opening is accepted on every path (zero polynomials included)
+            if res["check"] != "Ok(())":
+                run.violations.append((f"{tag}/honest-accepted",
+                                       _w(run, tag, f"honest opening rejected: {res['check']} (zero coefficients: {sorted(sub)})")))
+            forced = [c for c in p["path"] if c["forced"]]
+            for k2, c in enumerate(forced):
+                run.identity(f"{tag}/honest-accepted/identity{k2}", S(nodes[c["a"]]), S(nodes[c["b"]]))
     # ---- batch_check on arbitrary triples: acceptance polynomial == textbook; every evaluation bound
     for k in ([1, 2] if quick else [1, 2, 3, 4]):
         sb, ctx, nodes = load(run, ["batch", k])
